@@ -56,6 +56,7 @@ class Scheduler:
         self.fine = False          # yield at every visible operation
         self.steps = 0
         self.exits: list[tuple[str, str, str]] = []   # (name, exc type, traceback)
+        self.park_always = False     # free grain: queue.get and select are scheduling points even when they would not block
         self.rng = _real_random.Random(seed)
         self.policy = None         # callable(sched, enabled) -> Thread
         self.tracefn = None        # sys.settrace function for virtual threads
@@ -176,11 +177,11 @@ class Scheduler:
             raise MachineryError("controller thread would block on " + what)
         if self.dead:
             raise SimKill()
-        if pred() and not self.fine:
+        if pred() and not self.fine and not (self.park_always and what in ("queue.get", "select")):
             return True
         deadline = None if timeout is None else self.now + max(0.0, timeout)
         if pred():
-            # fine mode: scheduling point without blocking
+            # fine mode (or the free grain's loop boundaries): scheduling point without blocking
             self._park(_Wait(lambda: True, None, what))
             return True
         self._park(_Wait(pred, deadline, what))
